@@ -62,6 +62,9 @@ func NewLevelDBState(stateDbPath string, topic string) (*LevelDBState, error) {
 }
 
 func (s *LevelDBState) NewStateFromOld(stateDbPath string) (State, string, error) {
+	s.Lock()
+	defer s.Unlock()
+
 	if len(stateDbPath) < 1 {
 		stateDbPath = fmt.Sprintf("%s_%d", s.stateDbPath, time.Now().Unix())
 	}
@@ -124,6 +127,9 @@ func (s *LevelDBState) Delete(key string) error {
 }
 
 func (s *LevelDBState) SaveOffset(offset uint64) error {
+	s.Lock()
+	defer s.Unlock()
+
 	bz := make([]byte, 8)
 	binary.LittleEndian.PutUint64(bz, offset)
 
@@ -135,6 +141,9 @@ func (s *LevelDBState) SaveOffset(offset uint64) error {
 }
 
 func (s *LevelDBState) LoadOffset() (uint64, error) {
+	s.Lock()
+	defer s.Unlock()
+
 	bz, err := s.stateDb.Get(MakeCompositeKey(s.topic, OffsetKey), nil)
 	if err != nil {
 		return 0, fmt.Errorf("failed to read offset: %w", err)
